@@ -39,6 +39,7 @@ type relay struct {
 	late    int
 	dups    int
 	victim  string
+	starve  string // name prefix (String form): segment Interests >= 1 under it are always lost
 }
 
 type relayFace struct {
@@ -86,6 +87,16 @@ func (f *relayFace) Send(pkt enc.Wire) error {
 	jitter := time.Duration(rl.r.Intn(40000))*time.Microsecond + time.Duration(rl.seq)*time.Nanosecond
 	base := time.Millisecond + jitter
 	switch rl.mode {
+	case "starve":
+		lost := false
+		if kind == "I" && len(name) >= 2 && name[len(name)-1].Typ == enc.TypeSegmentNameComponent &&
+			name[len(name)-1].NumberVal() >= 1 && name[:len(name)-1].String() == rl.starve {
+			lost = true
+			rl.dropped++
+		}
+		if !lost {
+			delays = []time.Duration{base}
+		}
 	case "none":
 		delays = []time.Duration{base}
 	case "budget":
@@ -298,10 +309,94 @@ func runE2ECase(t *testing.T, o *out, r *rand.Rand) {
 		o.pf("LATE %d\n", len(obs)-nAtDone)
 		mu.Unlock()
 	}
+	if r.Intn(3) == 0 {
+		runE2EConcurrent(o, r, rl, prod, cons, name)
+	}
 	o.pf("END\n")
 	cons.Stop()
 	prod.Stop()
 	engC.Stop()
 	engP.Stop()
 	_ = ndn.ContentTypeBlob
+}
+
+// runE2EConcurrent: two consumers at once on ONE client. Consumer A fetches an object of 12+ segments whose segments 1..
+// are lost on every transmission: its Interests fill the shared fetch window, then it fails when the retries run out.
+// Consumer B asks for a small object while the window is full; it must still get its completion.
+func runE2EConcurrent(o *out, r *rand.Rand, rl *relay, prod, cons *object.Client, name enc.Name) {
+	bigName := append(append(enc.Name{}, name...), enc.NewStringComponent(enc.TypeGenericNameComponent, "big"))
+	smallName := append(append(enc.Name{}, name...), enc.NewStringComponent(enc.TypeGenericNameComponent, "small"))
+	bigVer, smallVer := uint64(7), uint64(9)
+	big := genContent(r, 11*segSize+1+r.Intn(3*segSize))
+	small := genContent(r, 1+r.Intn(2*segSize))
+	if _, err := prod.Produce(object.ProduceArgs{Name: bigName, Content: enc.Wire{append([]byte{}, big...)}, Version: &bigVer}); err != nil {
+		o.pf("BAD produce %v\n", err)
+	}
+	if _, err := prod.Produce(object.ProduceArgs{Name: smallName, Content: enc.Wire{append([]byte{}, small...)}, Version: &smallVer}); err != nil {
+		o.pf("BAD produce %v\n", err)
+	}
+	o.pf("PUB %s %d %s\n", nameStr(bigName), bigVer, hx(big))
+	o.pf("PUB %s %d %s\n", nameStr(smallName), smallVer, hx(small))
+	bigV := append(append(enc.Name{}, bigName...), enc.NewVersionComponent(bigVer))
+	rl.mu.Lock()
+	rl.mode = "starve"
+	rl.starve = bigV.String()
+	rl.drops = map[string]int{}
+	rl.dropped, rl.late, rl.dups, rl.victim = 0, 0, 0, ""
+	rl.mu.Unlock()
+
+	type consumer struct {
+		name enc.Name
+		mu   sync.Mutex
+		obs  []cbObs
+		done chan struct{}
+	}
+	mk := func(nm enc.Name) *consumer { return &consumer{name: nm, done: make(chan struct{}, 64)} }
+	start := func(c *consumer) {
+		cons.Consume(c.name, func(s *object.ConsumeState) bool {
+			ob := cbObs{progress: s.Progress(), max: "-", chunk: hx(s.Content()), err: errCode(s.Error())}
+			if s.IsComplete() {
+				ob.complete = 1
+			}
+			if s.Error() == nil && s.ProgressMax() >= 0 {
+				ob.max = fmt.Sprint(s.ProgressMax())
+			}
+			c.mu.Lock()
+			c.obs = append(c.obs, ob)
+			c.mu.Unlock()
+			if ob.complete == 1 {
+				c.done <- struct{}{}
+			}
+			return true
+		})
+	}
+	a, b := mk(bigV), mk(smallName)
+	start(a)
+	time.Sleep(500 * time.Millisecond) // virtual: A's first segment is in and its Interests occupy the window
+	start(b)
+	deadline := time.After(30 * time.Minute) // virtual; far beyond the retry budget (4 transmissions x 4 s)
+	for _, c := range []*consumer{a, b} {
+		select {
+		case <-c.done:
+		case <-deadline:
+		}
+	}
+	time.Sleep(60 * time.Second)
+	rl.mu.Lock()
+	dropped := rl.dropped
+	rl.mode = "none"
+	rl.mu.Unlock()
+	for i, c := range []*consumer{a, b} {
+		mode, d := "blackhole", dropped
+		if i == 1 {
+			mode, d = "concurrent", 0
+		}
+		o.pf("CONSUME %s every %s %d 0 0\n", nameStr(c.name), mode, d)
+		c.mu.Lock()
+		for j, ob := range c.obs {
+			o.pf("CB %d %d %s %d %s %s\n", j, ob.complete, ob.err, ob.progress, ob.max, ob.chunk)
+		}
+		c.mu.Unlock()
+		o.pf("LATE 0\n")
+	}
 }
